@@ -9,6 +9,8 @@
 -/
 import PydapModel.FileHandlers
 import Proofs.FileHandlers
+import PydapModel.CsvReader
+import Proofs.CsvReader
 namespace Pydap.C20
 open Pydap Pydap.FileHandlers
 
@@ -55,31 +57,52 @@ theorem C20_last_registered_is_not_nearest_scope :
     ¬ (["A", "A1"] <+: ["B"]) := by
   constructor <;> decide
 
-/-- **one variable per file variable (completeness)**: every variable of the root or of a nested
-    group appears in the handler's dataset under its group's path with the file's type, shape and
-    attributes (netCDF attribute `path`, which pydap reserves, excepted inside groups) -/
-theorem C20_tree_complete (f : NcFile) (hnames : (f.root.vars.map Var.name).Nodup) :
-    (∀ v ∈ f.root.vars, ∃ dims lz, Entry.var [] v.name v.ty v.shape dims v.attrs lz ∈ netcdfEntries f) ∧
+/-- no attribute of a non-root group, or of a variable of one, is literally named `path`
+    (pydap keeps the group path of every member of a group in `attributes["path"]`) -/
+def NoPathAttr (f : NcFile) : Prop :=
+  ∀ g ∈ f.groups, (∀ a ∈ g.attrs, a.1 ≠ "path") ∧ ∀ v ∈ g.vars, ∀ a ∈ v.attrs, a.1 ≠ "path"
+
+/-- what the property demands of the tree: every variable of the file appears under its group's path with the
+    file's type, shape, attributes and with each dimension named after the nearest enclosing declaration; root
+    variables named like a root dimension are the eager ones -/
+def TreeComplete (f : NcFile) : Prop :=
+  (∀ v ∈ f.root.vars, Entry.var [] v.name v.ty v.shape (v.dims.map (resolveDim f [])) v.attrs (!isCoord f v)
+      ∈ netcdfEntries f) ∧
+  (∀ g ∈ f.groups, ∀ v ∈ g.vars,
+      Entry.var g.path v.name v.ty v.shape (v.dims.map (resolveDim f g.path)) v.attrs true ∈ netcdfEntries f)
+
+private theorem filter_path_id (l : List (String × String)) (h : ∀ a ∈ l, a.1 ≠ "path") :
+    (l.filter fun a => a.1 ≠ "path") = l := by
+  apply List.filter_eq_self.mpr
+  intro a ha
+  simpa using h a ha
+
+private theorem tree_complete_filtered (f : NcFile) (hnames : (f.root.vars.map Var.name).Nodup) :
+    (∀ v ∈ f.root.vars, Entry.var [] v.name v.ty v.shape (v.dims.map (resolveDim f [])) v.attrs (!isCoord f v)
+        ∈ netcdfEntries f) ∧
     (∀ g ∈ f.groups, ∀ v ∈ g.vars,
       Entry.var g.path v.name v.ty v.shape (v.dims.map (resolveDim f g.path))
         (v.attrs.filter fun a => a.1 ≠ "path") true ∈ netcdfEntries f) := by
   constructor
   · intro v hv
+    have hres : v.dims.map (resolveDim f []) = v.dims.map (fun d => (([] : List String), d)) := by
+      apply List.map_congr_left
+      intro d _
+      rfl
+    rw [hres]
     by_cases hc : isCoord f v = true
-    · refine ⟨[([], v.name)], false, ?_⟩
-      unfold netcdfEntries
+    · unfold netcdfEntries
       apply List.mem_cons_of_mem
       apply List.mem_append_right
       simp only [List.mem_map, List.mem_filterMap]
-      refine ⟨v, ⟨v.name, ?_, find_of_nodup _ v hnames hv⟩, rfl⟩
+      refine ⟨v, ⟨v.name, ?_, find_of_nodup _ v hnames hv⟩, by simp [hc]⟩
       simpa [isCoord] using hc
-    · refine ⟨v.dims.map fun d => ([], d), true, ?_⟩
-      unfold netcdfEntries
+    · unfold netcdfEntries
       apply List.mem_cons_of_mem
       apply List.mem_append_left
       apply List.mem_append_left
       simp only [List.mem_map, List.mem_filter]
-      exact ⟨v, ⟨hv, by simpa using hc⟩, rfl⟩
+      exact ⟨v, ⟨hv, by simpa using hc⟩, by simp [hc]⟩
   · intro g hg v hv
     unfold netcdfEntries
     apply List.mem_cons_of_mem
@@ -92,33 +115,39 @@ theorem C20_tree_complete (f : NcFile) (hnames : (f.root.vars.map Var.name).Nodu
     simp only [List.mem_map]
     exact ⟨v, hv, rfl⟩
 
-/-- **nothing but the file's variables (soundness)**: every variable of the handler's dataset is a
-    variable of the file, in its group, with the file's type and shape; root variables keep their
-    dimension names under `/`, group variables get nearest-scope names (`C20_dim_nearest_scope`) -/
-theorem C20_tree_sound (f : NcFile) (P : List String) (n t : String) (sh : List Nat) (ds : List FQN)
-    (ats : List (String × String)) (lz : Bool) (he : Entry.var P n t sh ds ats lz ∈ netcdfEntries f) :
-    (P = [] ∧ ∃ v ∈ f.root.vars, v.name = n ∧ v.ty = t ∧ v.shape = sh ∧ v.attrs = ats ∧
-        (ds = v.dims.map (fun d => ([], d)) ∨ ds = [([], v.name)])) ∨
-    (∃ g ∈ f.groups, P = g.path ∧ ∃ v ∈ g.vars, v.name = n ∧ v.ty = t ∧ v.shape = sh ∧
-        ats = v.attrs.filter (fun a => a.1 ≠ "path") ∧ ds = v.dims.map (resolveDim f g.path)) := by
-  unfold netcdfEntries at he
-  simp only [List.mem_cons, List.mem_append, List.mem_map, List.mem_filter, List.mem_flatMap,
-    List.mem_filterMap, reduceCtorEq, false_or] at he
-  rcases he with (⟨v, ⟨hv, _⟩, he⟩ | ⟨g, hg, he⟩) | ⟨v, ⟨d, _, hf⟩, he⟩
-  · left
-    injection he with h1 h2 h3 h4 h5 h6 h7
-    exact ⟨h1.symm, v, hv, h2, h3, h4, h6, Or.inl h5.symm⟩
-  · right
-    unfold groupEntries at he
-    simp only [List.mem_cons, reduceCtorEq, List.mem_map, false_or] at he
-    obtain ⟨v, hv, he⟩ := he
-    simp only [mkVar] at he
-    injection he with h1 h2 h3 h4 h5 h6 h7
-    exact ⟨g, hg, h1.symm, v, hv, h2, h3, h4, h6.symm, h5.symm⟩
-  · left
-    have hv := List.mem_of_find?_eq_some hf
-    injection he with h1 h2 h3 h4 h5 h6 h7
-    exact ⟨h1.symm, v, hv, h2, h3, h4, h6, Or.inr h5.symm⟩
+/-- **one variable per file variable (completeness), under the guard of finding C20.reserved_attribute_path**:
+    every variable of the root or of a nested group, of any rank and whatever its name (a root variable named like
+    a dimension included: it keeps its own dimensions), appears with the file's type, shape, attributes and
+    nearest-scope dimension names -/
+theorem C20_tree_complete_partial (f : NcFile) (hnames : (f.root.vars.map Var.name).Nodup) (hp : NoPathAttr f) :
+    TreeComplete f := by
+  obtain ⟨h1, h2⟩ := tree_complete_filtered f hnames
+  refine ⟨h1, ?_⟩
+  intro g hg v hv
+  have := h2 g hg v hv
+  rwa [filter_path_id v.attrs ((hp g hg).2 v hv)] at this
+
+/-- the witness of finding C20.reserved_attribute_path: `/A/u` carries the netCDF attribute `path = "p0"` -/
+def pathWitness : NcFile :=
+  { root := { path := [], dims := [("x", 2)], attrs := [], vars := [] },
+    groups := [{ path := ["A"], dims := [], attrs := [], vars :=
+      [{ name := "u", ty := "i4", shape := [2], dims := ["x"], attrs := [("path", "s:p0"), ("units", "s:m")] }] }] }
+
+/-- **the unguarded statement is false** on the code as it is: the handler deletes a file attribute named `path`
+    inside groups (the name is taken by pydap's own bookkeeping) -/
+theorem C20_tree_complete_refuted :
+    ¬ (∀ f : NcFile, (f.root.vars.map Var.name).Nodup → TreeComplete f) := by
+  intro h
+  have := (h pathWitness (by decide)).2 _ (List.mem_singleton.mpr rfl) _ (List.mem_singleton.mpr rfl)
+  revert this
+  decide
+
+/-- what is lost inside the finding's class is exactly the `path` entry: every other attribute is kept, in order -/
+theorem C20_tree_complete_modulo_path (f : NcFile) (hnames : (f.root.vars.map Var.name).Nodup) :
+    ∀ g ∈ f.groups, ∀ v ∈ g.vars,
+      Entry.var g.path v.name v.ty v.shape (v.dims.map (resolveDim f g.path))
+        (v.attrs.filter fun a => a.1 ≠ "path") true ∈ netcdfEntries f :=
+  (tree_complete_filtered f hnames).2
 
 /-- groups: every group of the file appears with its own dimensions and attributes -/
 theorem C20_tree_groups (f : NcFile) :
@@ -199,6 +228,101 @@ theorem C20_csv_sidecar (header : List String) (rows : List (List Cell)) (s : Si
     simp only [csvDataset, csvAttach, List.mem_filter] at he
     exact ⟨he.1, by simpa using he.2⟩
 
+/-! ### the `LazyVariable` object -/
+
+private theorem foldl_reshape_fields (ops : List ReshapeArgs) (lv : Lazy) :
+    (ops.foldl Lazy.doReshape lv).dtype = lv.dtype ∧ (ops.foldl Lazy.doReshape lv).ndim = lv.ndim ∧
+    (ops.foldl Lazy.doReshape lv).shape = lv.shape ∧ (ops.foldl Lazy.doReshape lv).size = lv.size ∧
+    (ops.foldl Lazy.doReshape lv).reshape = (match ops.getLast? with | none => lv.reshape | some a => a.target) := by
+  induction ops generalizing lv with
+  | nil => simp
+  | cons a rest ih =>
+    obtain ⟨h1, h2, h3, h4, h5⟩ := ih (lv.doReshape a)
+    refine ⟨h1, h2, h3, h4, ?_⟩
+    simp only [List.foldl_cons, h5]
+    cases rest with
+    | nil => simp [Lazy.doReshape]
+    | cons b r =>
+      have : (b :: r).getLast? = some ((b :: r).getLast (by simp)) := List.getLast?_eq_some_getLast (by simp)
+      simp [this]
+
+/-- **bookkeeping, every rank, any history of `reshape` calls** (in either calling convention): the object keeps the
+    file variable's type, rank (`ndim = len(dimensions)`), shape, size (= product of the extents, 1 for rank 0) and
+    `len` (first extent; `TypeError` for rank 0); only the pending reshape changes, to the last one asked for -/
+theorem C20_lazy_bookkeeping (v : Var) (ops : List ReshapeArgs) :
+    let lv := ops.foldl Lazy.doReshape (Lazy.ofVar v)
+    lv.dtype = v.ty ∧ lv.ndim = v.dims.length ∧ lv.shape = v.shape ∧ lv.size = prod v.shape ∧
+    lv.len = (match v.shape with | [] => .error .typeError | n :: _ => .ok n) ∧
+    lv.reshape = (match ops.getLast? with | none => v.shape | some a => a.target) := by
+  obtain ⟨h1, h2, h3, h4, h5⟩ := foldl_reshape_fields ops (Lazy.ofVar v)
+  refine ⟨h1, h2, h3, h4, ?_, h5⟩
+  simp only [Lazy.len, h3]
+  rfl
+
+/-- **reads on a reshaped object**: a read of as many elements as the pending shape holds (a whole-variable read)
+    comes back in that shape with the library's values in the library's order; any other read (a proper hyperslab)
+    is the library's answer untouched; errors of the library pass through -/
+theorem C20_lazy_reshaped_read (lv : Lazy) (read : Key → Except Err Arr) (key : Key) (hrank : lv.shape ≠ []) :
+    lv.get read key = (match read key with
+      | .error e => .error e
+      | .ok a => if lv.reshape ≠ lv.shape ∧ prod a.shape = prod lv.reshape then .ok ⟨lv.reshape, a.data⟩ else .ok a) := by
+  unfold Lazy.get lazyGet
+  cases hs : lv.shape with
+  | nil => exact absurd hs hrank
+  | cons n ns =>
+    simp only
+    cases read key with
+    | error e => rfl
+    | ok a => simp
+
+/-! ### CSV quoting rules (`csv.reader(quoting=QUOTE_NONNUMERIC)` as the handler uses it) -/
+
+/-- **which cells become strings and which floats, for every file a QUOTE_NONNUMERIC writer produces**: a header of
+    (quoted) names followed by any rows whose cells are quoted strings — any characters: delimiters, doubled quotes,
+    LF, CR, CRLF inside — unquoted number tokens, or nothing at all; lines ended by LF or CRLF.  The handler's
+    columns are the names, its records are the rows in order, a quoted cell is the string itself (also `""`, also
+    text that looks like a number), an unquoted token is `float(token)`, an empty unquoted cell is the empty string. -/
+theorem C20_csv_quoting (nl : List Char) (hnl : nl = ['\n'] ∨ nl = ['\r', '\n'])
+    (float : List Char → Option Nat) (fl : List Char → Nat)
+    (names : List (List Char)) (rows : List (List Csv.WCell)) (hnames : names ≠ [])
+    (hok : ∀ r ∈ rows, Csv.RowOK r) (hfl : ∀ r ∈ rows, Csv.FloatOK float fl r) :
+    Csv.csvFile float (Csv.renderRows nl (names.map Csv.WCell.q :: rows)) =
+      .ok (names.map Csv.Cell.str, rows.map fun r => r.map (Csv.cellOf fl)) := by
+  have hhdr : Csv.RowOK (names.map Csv.WCell.q) := by
+    refine ⟨by simpa using hnames, ?_, ?_⟩
+    · cases names with
+      | nil => exact absurd rfl hnames
+      | cons n ns => cases ns <;> simp
+    · intro c hc
+      obtain ⟨n, _, rfl⟩ := List.mem_map.mp hc
+      trivial
+  have hall : ∀ r ∈ names.map Csv.WCell.q :: rows, Csv.RowOK r := by
+    intro r hr
+    rcases List.mem_cons.mp hr with h | h
+    · exact h ▸ hhdr
+    · exact hok r h
+  have hflh : Csv.FloatOK float fl (names.map Csv.WCell.q) := by
+    intro c t hm
+    obtain ⟨n, _, hn⟩ := List.mem_map.mp hm
+    cases hn
+  have hfall : ∀ r ∈ names.map Csv.WCell.q :: rows, Csv.FloatOK float fl r := by
+    intro r hr
+    rcases List.mem_cons.mp hr with h | h
+    · exact h ▸ hflh
+    · exact hfl r h
+  unfold Csv.csvFile
+  rw [Csv.rows_read nl hnl _ hall]
+  dsimp only
+  rw [Csv.convRows_expect float fl _ hfall]
+  simp only [List.map_cons, List.map_map]
+  congr 2
+
+/-- unquoted text that is not a number is not served as anything: the file is rejected (`OpenFileError`) -/
+theorem C20_csv_unquoted_text_rejected (float : List Char → Option Nat) (hf : float ['a', 'b', 'c'] = none) :
+    Csv.csvFile float "\"a\"\nabc\n".toList = .error .notAFloat := by
+  simp [Csv.csvFile, Csv.readAll, Csv.readFrom, Csv.step, Csv.stepStartField, Csv.save, Csv.add, Csv.isNl,
+    Csv.lineEnds, Csv.reset, Csv.consRow, Csv.convRows, Csv.convRow, Csv.convField, hf]
+
 /-! ### non-vacuity -/
 
 private def exFile : NcFile :=
@@ -218,6 +342,11 @@ example : resolveDim exFile ["A", "A1"] "y" = ([], "y") := by decide
 example : ∃ Q, Q <+: ["B"] ∧ Declares exFile Q "x" := ⟨[], by simp, ⟨exFile.root, rfl, by decide⟩⟩
 example : Entry.var ["B"] "u" "i4" [4] [([], "x")] [] true ∈ netcdfEntries exFile := by decide
 example : Entry.var [] "x" "f4" [4] [([], "x")] [("units", "s:m")] false ∈ netcdfEntries exFile := by decide
+example : NoPathAttr exFile := by unfold NoPathAttr; decide
+/-- a root variable `x(y, x)` named like the dimension `x` keeps both dimensions -/
+example : Entry.var [] "x" "i2" [6, 4] [([], "y"), ([], "x")] [] false ∈ netcdfEntries
+    { exFile with root := { exFile.root with vars := [{ name := "x", ty := "i2", shape := [6, 4], dims := ["y", "x"], attrs := [] }] } } := by
+  decide
 example : (exFile.root.vars.map Var.name).Nodup := by decide
 example : lazyGet (fun _ => .ok ⟨[2], [5, 6]⟩) id [4] [4] (.slices [(1, 3, 1)]) = .ok ⟨[2], [5, 6]⟩ := by rfl
 example : lazyGetPinned (fun _ => .ok ⟨[2], [5, 6]⟩) id [4] (.slices [(1, 3, 1)]) = .error .reshape := by rfl
@@ -226,5 +355,23 @@ example : (csvDataset ["a", "b"] [[.num 1, .str "x"]]
     (some { top := [("NC_GLOBAL", [("t", "s:1")])], seq := [("b", [("units", "s:m")]), ("o", [])] })) =
     { columns := ["a", "b"], rows := [[.num 1, .str "x"]], globalAttrs := [("t", "s:1")],
       colAttrs := [("a", []), ("b", [("units", "s:m")])], seqAttrs := [("o", [])] } := by decide
+
+example : Csv.csvFile (fun t => if t = "1.5".toList then some 7 else none)
+    "\"a\",\"b\",\"c\"\r\n1.5,,\"x,\"\"y\r\nz\"\r\n".toList =
+    .ok ([.str "a".toList, .str "b".toList, .str "c".toList], [[.num 7, .str [], .str "x,\"y\r\nz".toList]]) := by
+  rfl
+example : Csv.RowOK [.bare "1.5".toList, .bare [], .q "x,\"y\r\nz".toList] := by
+  refine ⟨by simp, by simp, ?_⟩
+  intro c hc
+  simp at hc
+  rcases hc with h | h | h <;> subst h <;> simp [Csv.CellOK, Csv.Plain]
+
+example : ([ReshapeArgs.ints [24], .seq [4, 6]].foldl Lazy.doReshape
+      (Lazy.ofVar { name := "v", ty := "i2", shape := [2, 3, 4], dims := ["a", "b", "c"], attrs := [] })) =
+    ⟨"i2", 3, [2, 3, 4], [4, 6], 24⟩ := by decide
+example : (Lazy.ofVar { name := "s", ty := "f8", shape := [], dims := [], attrs := [] }).len = .error .typeError ∧
+    (Lazy.ofVar { name := "s", ty := "f8", shape := [], dims := [], attrs := [] }).size = 1 := ⟨rfl, rfl⟩
+example : (Lazy.doReshape (Lazy.ofVar { name := "v", ty := "i2", shape := [2, 2], dims := ["a", "b"], attrs := [] }) (.seq [4])).get
+    (fun _ => .ok ⟨[2, 2], [1, 2, 3, 4]⟩) (.slices [(0, 2, 1), (0, 2, 1)]) = .ok ⟨[4], [1, 2, 3, 4]⟩ := by rfl
 
 end Pydap.C20
